@@ -159,7 +159,7 @@ __CPROVER_loop_invariant(g_victim_calls == ((%(c)s.victim_engaged && g_victim < 
 """ % {"c": cont_expr}
 
 
-SEV_COMMON = [FWD, SETSIG, VISIT, Sub(r"std::get<(\w+)>\((\w+)\)", r"tok_get(\1, \2)", None),
+SEV_COMMON = [Sub(r"std::move\((error)\)", r"(*tok_moved_p(&(\1)))", None), FWD, SETSIG, VISIT, Sub(r"std::get<(\w+)>\((\w+)\)", r"tok_get(\1, \2)", None),
               Sub(r"pika::execution::experimental::sender_traits<Sender>::sends_done", "PRED_SENDS_STOPPED", None)] + BIND_APPLY + [
     Members(["receiver", "Index"], optional=["receiver", "Index"])]
 
@@ -167,14 +167,14 @@ SHARED = {
     "split": dict(
         src=ALG + "split.hpp", kind=0, member="continuations", recv_struct="split_receiver", value_in="ts", value_param="ts",
         set_value=r"auto set_value\(Ts&&\.\.\. ts\) && noexcept", sev_mono=r"void operator\(\)\(pika::detail::monostate\) const",
-        sev_error=r"void operator\(\)\(error_type const& error\)", sev_value=r"void operator\(\)\(value_type const& ts\)",
-        ev=r"void operator\(\)\(Error const& error\)", vv=r"void operator\(\)\(Ts const& ts\)",
+        sev_error=r"void operator\(\)\(error_type(?: const)?\s*&&? error\)", sev_value=r"void operator\(\)\(value_type const& ts\)",
+        ev=r"void operator\(\)\(Error(?: const)?\s*&&? error\)", vv=r"void operator\(\)\(Ts const& ts\)",
         loop=loop_spd("self->continuations"), op_starts_pred=1, sends_stopped=[1]),
     "split_tuple": dict(
         src=ALG + "split_tuple.hpp", kind=1, member="continuations", recv_struct="split_tuple_receiver", value_in="t", value_param="t",
         set_value=r"auto set_value\(T&& t\) && noexcept", sev_mono=r"void operator\(\)\(pika::detail::monostate\) const",
-        sev_error=r"void operator\(\)\(error_type const& error\)", sev_value=r"void operator\(\)\(value_type& t\)",
-        ev=r"void operator\(\)\(Error const& error\)", vv=None,
+        sev_error=r"void operator\(\)\(error_type(?: const)?\s*&&? error\)", sev_value=r"void operator\(\)\(value_type& t\)",
+        ev=r"void operator\(\)\(Error(?: const)?\s*&&? error\)", vv=None,
         loop=loop_spd("continuations_local"), op_starts_pred=1, sends_stopped=[1, 0]),
     "ensure_started": dict(
         src=ALG + "ensure_started.hpp", kind=2, member="continuation", recv_struct="ensure_started_receiver", value_in="ts", value_param="t",
@@ -187,7 +187,7 @@ SHARED = {
 
 def shared_units(name, c):
     src, kind, member = c["src"], c["kind"], c["member"]
-    base = ["CONT_KIND=%d" % kind, "CONT_MEMBER=" + member, "RECV_HOLDS_PTR=%d" % _recv_holds_ptr(src, c["recv_struct"]),
+    base = ["ERROR_SHARED=%d" % (1 if kind in (0, 1) else 0), "CONT_KIND=%d" % kind, "CONT_MEMBER=" + member, "RECV_HOLDS_PTR=%d" % _recv_holds_ptr(src, c["recv_struct"]),
             "VALUE_IN=" + c["value_in"], "VALUE_PARAM=" + c["value_param"], "OP_START_STARTS_PRED=%d" % c["op_starts_pred"]]
     D = base + ["PRED_SENDS_STOPPED=1"]
     where = src + ": " + name + " shared_state::"
